@@ -117,7 +117,7 @@ def print_str_args(rule, args, th):
 
     if isinstance(args, tuple) or isinstance(args, list):
         return commas_join(str_val(val) for val in args)
-    elif args:
+    elif args or isinstance(args, (Inst, TyInst)):
         return str_val(args)
     else:
         return [] if settings.highlight else ""
